@@ -16,3 +16,14 @@ Theorem c15_every_element_released_exactly_once : forall e, known_env e -> e_own
   iv_total (taken_all e tr ++ dropped_all tr) = e_len e.
 Proof. exact all_released. Qed.
 Print Assumptions c15_every_element_released_exactly_once.
+
+(** the owning wrapper over an arbitrary iterator: at the end of life, once every thread has dropped its
+    buffered iterator, the ledger of handed-out and destroyed positions is exact *)
+From OCI.proofs Require Import IterBase ChkIter IterLedger.
+Theorem c15_wrapped_iterator_end_of_life : forall e, iter_env e -> forall progs, wf_progs progs -> forall sched,
+  nowrap (c_labels (exec e (init progs) sched)) ->
+  n_pending (c_trace (exec e (init progs) sched)) = 0%Z ->
+  (forall t, In t (nodup Nat.eq_dec sched) -> t_buf (c_pool (exec e (init progs) sched) t) = None) ->
+  forall t f, chk_C08 e (c_trace (final_step e (exec e (init progs) sched) t f)) = true.
+Proof. exact iter_C08_final. Qed.
+Print Assumptions c15_wrapped_iterator_end_of_life.
